@@ -2030,19 +2030,19 @@ class UTPM(Ring, RawAlgorithmsMixIn):
             assert len(y_shp[2:]) == 1
 
             out_shp = x_shp + y_shp[-1:]
-            out = cls(cls.__zeros__(out_shp, dtype = x.data.dtype))
+            out = cls(cls.__zeros__(out_shp, dtype = numpy.promote_types(x.data.dtype, y.data.dtype)))
             cls._outer( x.data, y.data, out = out.data)
 
         elif isinstance(x, UTPM) and isinstance(y, numpy.ndarray):
             x_shp = x.data.shape
             out_shp = x_shp + (numpy.size(y),)
-            out = cls(cls.__zeros__(out_shp, dtype = x.data.dtype))
+            out = cls(cls.__zeros__(out_shp, dtype = numpy.promote_types(x.data.dtype, y.dtype)))
             cls._outer_non_utpm_y( x.data, y, out = out.data)
 
         elif isinstance(x, numpy.ndarray) and isinstance(y, UTPM):
             y_shp = y.data.shape
             out_shp = y_shp[:2] + (numpy.size(x),) + y_shp[2:]
-            out = cls(cls.__zeros__(out_shp, dtype = y.data.dtype))
+            out = cls(cls.__zeros__(out_shp, dtype = numpy.promote_types(x.dtype, y.data.dtype)))
             cls._outer_non_utpm_x( x, y.data, out = out.data)
 
         else:
